@@ -317,7 +317,7 @@ def nodeOk (R : RParser) (D : ToDom) (opts : Opts) (pt : TypeId) : Node → Bool
   | .text _ ms => (R.P.S.nodeType pt).inlineContent && ms.all (fun m => markRule R D m true)
   | .leaf t a ms =>
     (leafRule R D t a).isSome && (R.P.S.nodeType t).isLeaf && !(R.P.S.nodeType t).isText &&
-      ms.all (fun m => markRule R D m (R.P.S.nodeType t).isInline)
+      (ms.isEmpty || (R.P.S.nodeType t).isInline) && ms.all (fun m => markRule R D m (R.P.S.nodeType t).isInline)
   | .elem t a ms kids =>
     !(R.P.S.nodeType t).isLeaf && ms.isEmpty &&
     (match elemRule R D t a with
